@@ -3,7 +3,7 @@ from .. import common as C, generic as G
 from . import C17
 
 TRUSTED = ['Coq 8.16.1 kernel + vm_compute', 'translator/tables.py: exit construction sites with their enclosing guards, break/continue sites and counter writes as source text', 'the invariants of C02, C04, C18 (proved in their own files) that turn a guard into the stated fact', 'Python control flow: statements after `if c: ...; break` run only when c is false']
-PERRUN = ['Char_model.v', 'Char_controller.v', 'C18.v', 'C10.v']
+PERRUN = ['Char_model.v', 'Char_controller.v', 'C18.v', 'C02.v', 'C10.v']   # the budget clauses rest on C02's accounting and restart-admission obligations
 GEN = ('Gen_util', 'Gen_model', 'Gen_controller', 'Gen_solver', 'Gen_tables')
 
 
